@@ -2,6 +2,7 @@ import WcModel.Driver.Parse
 import WcModel.Driver.Spec
 import WcModel.Model.Comp
 import WcModel.Model.Strip
+import WcModel.Model.Escape
 /-
   K1': the tidy compiler agrees with the faithful port, as regex ASTs modulo
   (a) association of concatenation and empty units, (b) how a class member is spelt
@@ -128,6 +129,79 @@ def handleCaps : List String → Option String
     match parseRe fl b pat with
     | .ok r => pure s!"ok {Re.countCaps r}"
     | .error e => pure s!"err {e}"
+  | _ => none
+
+end WcModel.Driver
+
+namespace WcModel.Driver
+open WcModel.Proto
+
+/-- `escape <s>` → `ok <escapeUnix s>` -/
+def handleEscape : List String → Option String
+  | [s] => do
+    let s ← decStr s
+    pure s!"ok {encStr (escapeUnix s)}"
+  | _ => none
+
+/-- `ismagic <flags> <s>` → `ok 0|1` (Unix rules) -/
+def handleIsMagic : List String → Option String
+  | [fl, s] => do
+    let fl ← fl.toNat?
+    let s ← decStr s
+    pure s!"ok {encBool (isMagicUnix (Flags.ofNat fl) s)}"
+  | _ => none
+
+end WcModel.Driver
+
+namespace WcModel.Driver
+open WcModel.Proto
+
+/-- identify the bytes spelling of the full range (0–0xff) with the str one (0–0x10ffff) -/
+def lat1Item : ClsItem → ClsItem
+  | .range lo le hi he => if lo.toNat = 0 ∧ hi.toNat = 0xff then .range lo le (Char.ofNat 0x10ffff) he else .range lo le hi he
+  | it => it
+
+def lat1 : Re → Re
+  | .cls n items => .cls n (items.map lat1Item)
+  | .cat a b => .cat (lat1 a) (lat1 b)
+  | .alt a b => .alt (lat1 a) (lat1 b)
+  | .opt r => .opt (lat1 r)
+  | .star l r => .star l (lat1 r)
+  | .plus r => .plus (lat1 r)
+  | .rep lo hi r => .rep lo hi (lat1 r)
+  | .look n r => .look n (lat1 r)
+  | .flags s i r => .flags s i (lat1 r)
+  | .grp r => .grp (lat1 r)
+  | .cap r => .cap (lat1 r)
+  | .gcap r => .gcap (lat1 r)
+  | r => r
+
+/-- `certb <flags> <pattern>`: bytes-vs-str certificate for an ASCII pattern → `ok same|diff` -/
+def handleCertB : List String → Option String
+  | [fl, p] => do
+    let fl ← fl.toNat?
+    let pat ← decStr p
+    match parseRe fl true pat, parseRe fl false pat with
+    | .ok rb, .ok rs =>
+      if (lat1 rb.strip) = (lat1 rs.strip) then pure "ok same"
+      else pure s!"ok diff {reSexp rb.strip} {reSexp rs.strip}"
+    | .error e1, .error e2 => if e1 = e2 then pure s!"ok sameerr" else pure s!"err {e1} {e2}"
+    | .error e, .ok _ => pure s!"err {e} ok"
+    | .ok _, .error e => pure s!"err ok {e}"
+  | _ => none
+
+/-- `allci <flags> <isBytes> <pattern>` → `ok <allCi of the inner regex> <ci>` -/
+def handleAllCi : List String → Option String
+  | [fl, b, p] => do
+    let fl ← fl.toNat?
+    let b ← decBool b
+    let pat ← decStr p
+    match parsePattern fl b pat with
+    | .error _ => pure "err ValueError"
+    | .ok parsed =>
+      match parsed.toRe with
+      | none => pure "err ReError"
+      | some r => pure s!"ok {encBool r.allCiTop} {encBool parsed.ci}"
   | _ => none
 
 end WcModel.Driver
